@@ -257,6 +257,9 @@ def check(ctx):
             return ok
     util.guarded(ctx, C13.check, OnlyDeallocId(ctx, "R16.6"))
     if not getattr(ctx, "deferred_infra", None): ctx.floor("R16.6", 2)
+    # 'one owner per pool slot' across the OgreUnique -> OgreArc conversion (shared with C14 R14.5 / R14.8): a conversion that lets the unique handle's Drop run frees
+    # the slot the new shared handle still owns -- the slot is handed out twice (two accepted events in one slot) and freed twice
+    __import__("importlib").import_module("props.C14").check_unique_to_shared(ctx, "R16.7")
     # ------------------------------------------------------------------ R16.3 exact capacity
     C02 = importlib.import_module("props.C02")
     class OnlyGuards(util.PrefixedCtx):
